@@ -13,13 +13,15 @@ def build_case(desc):
         _, seed, kind, position, ctx, depth = desc
         prog, meta = F.generate(seed, kind=kind, position=position, ctx=ctx, depth=depth)
         from .. import printer as P
-        lay = P.Layout(crlf=True) if seed % 7 == 0 else (P.Layout(seed=seed, p_blank=0.3, p_comment=0.3) if seed % 7 == 1 else None)
+        lay = P.Layout(crlf=True) if seed % 7 == 0 else (P.Layout(seed=seed, p_blank=0.3, p_comment=0.3) if seed % 7 == 1 else
+                                                         (P.Layout(seed=seed, p_zero=0.5, p_under=0.3, p_trail=0.3, p_semis=0.2) if seed % 7 == 2 else None))
         return {"prog": prog, "layout": lay, "tags": ["kind:" + meta["kind"], "pos:" + str(meta["position"]), "ctx:" + meta["ctx"],
                                        "depth:%d" % meta["depth"]] + ["call:" + f for f in meta["forms"]],
                 "meta": meta, "check_diag": True, "check_pos": True, "check_atoms": True, "trace": True, "keep_trace": True}
     if desc[0] == "prog":
         prog, g = G.generate(desc[1], p_fail=desc[2])
-        return {"prog": prog, "tags": ["progen"], "check_diag": True, "check_pos": True, "check_atoms": True,
+        from .. import printer as P
+        return {"prog": prog, "tags": ["progen"], "layout": P.Layout.random(desc[1]) if desc[1] % 3 == 0 else None, "check_diag": True, "check_pos": True, "check_atoms": True,
                 "trace": True, "keep_trace": True}
     raise ValueError(desc)
 
